@@ -12,7 +12,9 @@
     tables                                        ->  linMask and the generated lin table
 
   <rat> ::= <int>/<nat>;  <res> ::= <rat> | py:<Error> | ? (transcendental: the harness applies
-  Python's own function to <arg>).
+  Python's own function of that TAG to <arg>; tag 11 = `math.pow(x, 1.0/3)` answers py:ValueError for a
+  negative <arg>, tag 12 = `math.copysign(math.pow(abs(x), 1.0/3), x)` answers ?).  The inverse ops take the
+  first two Variant flags; the third (cube root) shows in the generated `lin` table, not in a flag.
 -/
 import PyIpmi.Base.Proto
 import PyIpmi.Model.Sensor
@@ -103,7 +105,7 @@ def handleC17 (line : String) : String :=
   | "invall" :: fs :: ss :: fmt :: lin :: m :: b :: k1 :: k2 :: qs =>
     match mkRec fmt lin m b k1 k2, qs.mapM parseRat with
     | some r, some xs =>
-      let v : Sensor.Variant := ⟨fs == "1", ss == "1"⟩
+      let v : Sensor.Variant := ⟨fs == "1", ss == "1", false⟩
       " ; ".intercalate (xs.map fun x =>
         match Sensor.valueToRaw v r x with
         | .ok z => s!"ok {z} {showRat (Sensor.rawQ v r x)}"
@@ -116,7 +118,7 @@ def handleC17 (line : String) : String :=
   | ["inv", fs, ss, fmt, lin, m, b, k1, k2, q] =>
     match mkRec fmt lin m b k1 k2, parseRat q with
     | some r, some x =>
-      let v : Sensor.Variant := ⟨fs == "1", ss == "1"⟩
+      let v : Sensor.Variant := ⟨fs == "1", ss == "1", false⟩
       match Sensor.valueToRaw v r x with
       | .ok z => s!"ok {z} {showRat (Sensor.rawQ v r x)}"
       | e => e.tag
